@@ -88,6 +88,29 @@ def part_faults_sched(ctx):
     return p
 
 
+def part_faults_prune(ctx):
+    """the asynchronous prune must not lose a fault added while it runs (stress, not a forced schedule)"""
+    p = Part("faults-prune-race")
+    d = os.path.join(ctx["work"], "fprune")
+    rc, out = harness(["faults-prune", "-rounds", "300" if QUICK(ctx) else "3000", "-out", d])
+    if rc != 0:
+        p.violation("harness-failed", out[-1500:], dict(log=out[-3000:]), found_input=False)
+        return p
+    info = json.load(open(os.path.join(d, "faults_prune.json")))
+    p.evaluations = info["rounds"]
+    p.nontrivial = info["rounds"]
+    p.traces = info["rounds"]
+    p.samples = [info]
+    p.info = info
+    if info["lost"] or info["not_listed"]:
+        p.violation("fault-lost-during-prune", "a fault added for an operation while the prune of an exhausted fault of the same operation was running was lost: "
+                    "in %d of %d rounds it fired less than its count, in %d it was missing from the listing" % (info["lost"], info["rounds"], info["not_listed"]),
+                    dict(kind="faults-prune", result=info))
+    if info["overfired"]:
+        p.violation("fault-overfired", "a fault fired more often than its count in %d rounds" % info["overfired"], dict(kind="faults-prune", result=info))
+    return p
+
+
 def part_faults_grpc(ctx):
     """faults injected through the real gRPC interceptor: parameters from request fields"""
     p = Part("faults-grpc-interceptor")
@@ -663,6 +686,7 @@ def stream_part(own):
 STREAM_C11 = ("bound-messages", "bound-bytes", "stall", "head-of-line-limit", "fetch-spin", "harness-failed")
 STREAM_C03 = ("ack-not-completed",)
 STREAM_C01 = ("nack-completed",)
+STREAM_C04 = ("zero-deadline-not-immediate",)
 
 
 def _part_stream(ctx, own):
@@ -866,7 +890,7 @@ CHECKS = {
         props=["C01"],
         parts=[engine_part("delivery", 32, 600, 45, claim_c01, ["deliveries_created", "pull_nonempty", "redelivery", "nack_rescheduled"]),
                stream_part(STREAM_C01)],
-        rule="generated histories (profile delivery: publish/pull/ack/modack/nack/seek/jobs/clock jumps) against the production gRPC server; every step is checked "
+        rule="[+ stream part: a message nacked on a stream (Nack list or zero deadline, also through the StreamingPull RPC) must not end up acknowledged] generated histories (profile delivery: publish/pull/ack/modack/nack/seek/jobs/clock jumps) against the production gRPC server; every step is checked "
              "locally: model step from the implementation's pre-state vs response and full five-table post-state; non-trivial = deliveries created, non-empty pulls, redeliveries",
         assumptions=BUS_ASSUME),
     "C02": dict(
@@ -878,15 +902,15 @@ CHECKS = {
     "C04": dict(
         props=["C04", "C04backoff"],
         parts=[engine_part("delivery", 32, 600, 45, claim_c04, ["redelivery", "modack_effective", "nack_rescheduled", "pull_nonempty"]), part_backoff,
-               timers_part(TIMERS_C04)],
-        rule="engine profile delivery (retry policies absent/min/max/both from 200 ms to 100 s, clock jumps to lease deadline -/+ margin) + grid of NextDelayFor over policies x attempts; "
+               timers_part(TIMERS_C04), stream_part(STREAM_C04)],
+        rule="[+ real-time part: a pull already waiting returns a message when its 330 ms retry deadline passes while another message's deadline was extended to 600 s] engine profile delivery (retry policies absent/min/max/both from 200 ms to 100 s, clock jumps to lease deadline -/+ margin) + grid of NextDelayFor over policies x attempts; "
              "non-trivial = redeliveries, effective deadline changes, nacks",
         assumptions=BUS_ASSUME + [T_FLOAT, "concurrent pullers: interleavings are at transaction granularity (serialisable database), covered by the history theorems; not exhibited on the code here"]),
     "C06": dict(
         props=["C06"],
         parts=[engine_part("delivery", 32, 600, 45, claim_c06, ["pull_deadlettered", "nack_deadlettered", "job_effective:DeadLetterSweep"]),
                services_part(("DeadLetterSweep",), False)],
-        rule="engine profile delivery with dead-letter policies N in 1..4 and default, topologies from generated topics (no subscriber, several, filtered, ordered, deleted topic, self loop); "
+        rule="[+ background services part: the dead-letter service's first run = one model sweep step] engine profile delivery with dead-letter policies N in 1..4 and default, topologies from generated topics (no subscriber, several, filtered, ordered, deleted topic, self loop); "
              "non-trivial = deliveries dead-lettered by pull / nack / sweep",
         assumptions=BUS_ASSUME),
     "C05": dict(
@@ -918,7 +942,7 @@ CHECKS = {
         props=["C14"],
         parts=[engine_part("delivery", 32, 600, 45, claim_c14, ["job_effective:ExpireSubs", "job_effective:PruneExpiredDeliveries", "pull_empty", "pull_nonempty"]),
                services_part(("ExpireSubs", "PruneExpiredDeliveries"), False), timers_part(TIMERS_C14)],
-        rule="engine profile delivery: retention 20 s .. 1 h and default, ttl 45 s .. 24 h and default, injected delays 0/5/40 s; the clock jumps to each lease / retention / subscription "
+        rule="[+ background services part: the expiry service on a prepared state (a subscription 23 min from expiring must survive); real-time part: a pull waiting across the end of a message's retention must not hand it out, delivery delay honoured by a waiting pull] engine profile delivery: retention 20 s .. 1 h and default, ttl 45 s .. 24 h and default, injected delays 0/5/40 s; the clock jumps to each lease / retention / subscription "
              "deadline -1.5 s or +1.5 s ('clearly before or clearly after'); steps whose call spans a deadline are skipped and counted; owned projection: expiry sweep, pulls (heartbeat), "
              "publish (deadlines of new deliveries), SetDelay, expired-delivery prune",
         assumptions=BUS_ASSUME),
@@ -986,7 +1010,7 @@ CHECKS = {
                stream_part(STREAM_C03),
                engine_part(("bulk520", "bulk1100"), 1, 1, 30, claim_c03, ["ack_effective"])],
         parallel=True,
-        rule="same engine; owned projection: Acknowledge / ModifyAckDeadline / stream ack+nack steps (duplicate, stale, foreign, garbage ids; nack and deadline changes after ack); "
+        rule="[+ stream part: ids acknowledged on a stream / outside it / on a second stream of a reconnecting client are completed in the database; bulk profile: Acknowledge calls with exactly 500 / 499 / the remaining ids of 520 (thorough 1100) leased deliveries] same engine; owned projection: Acknowledge / ModifyAckDeadline / stream ack+nack steps (duplicate, stale, foreign, garbage ids; nack and deadline changes after ack); "
              "non-trivial = acks that completed something, no-op acks, effective deadline changes, nacks",
         assumptions=BUS_ASSUME),
     "C12": dict(
@@ -997,15 +1021,15 @@ CHECKS = {
     "C13": dict(
         props=["C13"],
         parts=[engine_part("seek", 32, 600, 45, claim_c13, ["seek_effective", "snapshot_created"]),
-               engine_part(("bulk520", "bulk1100"), 1, 1, 30, claim_c13, ["seek_effective", "snapshot_created"])],
+               engine_part(("bulk1100", "bulk1100"), 1, 1, 40, claim_c13, ["seek_effective", "snapshot_created"])],
         parallel=True,
-        rule="engine profile seek: publish / pull / partial ack / snapshot / seek to exact publish instants, +-1 ns, past, future, and to own and sibling snapshots, repeated; "
+        rule="[+ bulk profile: 1100 messages, a snapshot whose acknowledged-message list has 1099 entries, seek to it] engine profile seek: publish / pull / partial ack / snapshot / seek to exact publish instants, +-1 ns, past, future, and to own and sibling snapshots, repeated; "
              "non-trivial = seeks that changed rows, snapshots created",
         assumptions=BUS_ASSUME + ["snapshot_meaning assumes plain deliveries (no dead-letter forwards into the subscription)"]),
     "C18": dict(
         props=["C18"],
-        parts=[part_faults_seq, part_faults_sched, part_faults_grpc],
-        rule="sequential histories of Add/Check/Current and forced interleavings (yield hook between match and decrement) of 2-6 concurrent callers; through the deployed gRPC "
+        parts=[part_faults_seq, part_faults_sched, part_faults_grpc, part_faults_prune],
+        rule="[+ stress part: a fault added while the asynchronous prune of an exhausted fault of the same operation runs must not be lost (300 rounds, prune slowed by 3000 unrelated descriptions); a stream opened while no fault was configured still gets faults injected later] sequential histories of Add/Check/Current and forced interleavings (yield hook between match and decrement) of 2-6 concurrent callers; through the deployed gRPC "
              "interceptor chain: unary calls and streaming pulls (stream-open check carrying only service -> method, general and per-message receive checks) with faults naming request fields; "
              "non-trivial = a fault fired / a caller lost the race and had to re-match",
         trusted=["Go memory model, sync/atomic and sync.RWMutex (each atomic Load/Add is one LTS step)", "the verif yield hook in faults.Set.Check (one added line)"],
@@ -1020,6 +1044,6 @@ CHECKS = {
     "C08": dict(
         props=["C08"],
         parts=[part_filter_c08, engine_part("config", 32, 600, 45, claim_c08e, ["publish_ok"])],
-        rule="same inputs as C07: accept/reject + AST equality with the model, AsFilter text equality, and re-parse to the same AST; watchdog for hangs, recover for panics",
+        rule="[+ engine profile config: CreateSubscription / UpdateSubscription(filter) with invalid filters (repeated within one server process) are rejected and never stored] same inputs as C07: accept/reject + AST equality with the model, AsFilter text equality, and re-parse to the same AST; watchdog for hangs, recover for panics",
         assumptions=["text/scanner and strconv are modelled (Lex.v, Print.v), tied by this differential test", "never-crash/never-hang of the Go parser is checked on the generated inputs, not proved"]),
 }
